@@ -99,3 +99,51 @@ def congruent(st, a, b, bits):
     if not d.t:
         return d.c % (1 << bits) == 0
     return st.is_eq0(d) is True
+
+
+# ------------------------------------------------------------------------------------------------
+# loop-carried slots: where a term over the values at the head of an iteration lies in the next iteration / at loop entry
+
+def _slot_term(v):
+    from ..state import IntV, PtrV
+    if isinstance(v, PtrV) and v.obj is not None:
+        return v.off
+    if isinstance(v, IntV):
+        return v.lin
+    return None
+
+
+def slot_subst(begin, other):
+    """Map {atom of a carried slot at the head of the iteration -> its term in `other` (end of the iteration, or loop entry)};
+    None for slots whose head value is not a single fresh symbol."""
+    out = {}
+    for nm, bv in begin.items():
+        bt = _slot_term(bv)
+        ot = _slot_term(other.get(nm))
+        if bt is None:
+            continue
+        sa = bt.single_atom()
+        if sa is None or sa[1] != 1 or sa[2] != 0:
+            continue
+        out[sa[0]] = ot
+    return out
+
+
+def subst(lin, mp):
+    """lin with every carried-slot atom replaced through mp; None if a needed replacement is unknown or the atom occurs inside a
+    non-linear operator (where a linear substitution would not be the value of the next iteration)."""
+    from ..terms import Lin, base_atoms
+    out = Lin.const(lin.c)
+    for a, k in lin.t:
+        if a in mp:
+            if mp[a] is None:
+                return None
+            out = out + mp[a].scale(k)
+        else:
+            if not isinstance(a, str):
+                inner = set()
+                base_atoms(Lin.atom(a), inner)
+                if inner & set(mp):
+                    return None
+            out = out + Lin.atom(a, k)
+    return out
